@@ -9,6 +9,7 @@ import Proofs.GoTieSlicesEq
 import Proofs.GoTieEncrypt
 import Proofs.GoTieWrapLabels
 import Props.C11
+import Proofs.GoTieWitnessA
 namespace AgeModel
 namespace Tie.C11
 
@@ -77,6 +78,14 @@ theorem code_encrypt_incompatible (P : Prims) {S : AgeModel.Stream.DstSpec} {ρ 
       res.2.1 = some ⟨"age.Encrypt", 2, []⟩ ∧ E.absD res.2.2.1 = E.absD d := by
   obtain ⟨res, hrun, herr, habs⟩ := code_encrypt_refusal_writes_nothing P E d rs tape .incompatible h
   exact ⟨res, hrun, herr, habs⟩
+
+/-- **the assumption structures this file's theorems take are satisfiable** (for a lawful toy primitive suite
+    with the 16-byte tag, where they mention primitives): none of the theorems above is vacuous. The instances are in
+    `Proofs/GoTieWitnessA.lean` / `GoTieWitnessB.lean`. -/
+theorem assumptions_satisfiable :
+    Prims.toy16.Correct ∧ Prims.toy16.aead.NonceSep ∧ Prims.toy16.aead.T = 16 ∧
+    (∀ S : Stream.DstSpec, Nonempty (GoTie.EncryptEnv Prims.toy16 S Recipient (Stream.Dst S) (Option (Bytes × Stream.Dst S)))) :=
+  ⟨Prims.toy16_correct, AEAD.toy16_nonceSep, rfl, (fun S => ⟨GoTie.EncryptEnv.witness S⟩)⟩
 
 end Tie.C11
 end AgeModel
